@@ -309,6 +309,9 @@ def judge(key, r):
         # (an all-wf chain reproduces the L<=M-1 value to 1e-12, an all-sh chain sits inside the interval).
         width = abs(ex - ex1)
         lo, hi = min(ex, ex1) - width - 1e-9, max(ex, ex1) + width + 1e-9
+        if "wf" not in mv:
+            # shooting and the zero swap share the space L <= maxlength: the chain is exactly stationary on it
+            lo, hi = ex - 1e-9, ex + 1e-9
         info[f"P(l{i + 1}|l{i})"] = dict(estimate=est, exact_M=ex, exact_M_minus_1=ex1, bound=bound, band=[lo, hi])
         if not (lo <= est <= hi):
             bad.append((f"chain:biased-estimate:{'/'.join(mv)}:{dynname}",
@@ -317,12 +320,23 @@ def judge(key, r):
     return bad, info
 
 
+def configs2(quick):
+    out = [("drift", ("sh", "sh", "sh"), 8, None, 1), ("drift", ("sh", "wf", "sh"), 8, None, 1)]
+    if not quick:
+        out += [("sym", ("sh", "sh", "sh"), 8, None, 1), ("drift", ("sh", "wf", "wf"), 8, None, 1),
+                ("drift", ("sh", "sh", "sh"), 10, None, 1), ("drift", ("sh", "sh", "wf"), 9, 1.5, 1)]
+    return out
+
+
 def run_part(ctx):
     n = 0
     procs = min(16, os.cpu_count() or 1)
-    for key in configs(ctx.quick):
-        r = solve(key, procs)
+    work = [(1, k) for k in configs(ctx.quick)] + [(2, k) for k in configs2(ctx.quick)]
+    for W, key in work:
+        r = solve(key, procs) if W == 1 else solve2(key, procs)
         bad, info = judge(key, r)
+        bad = [(sig + (":W2" if W == 2 else ""), msg.replace("long-run", f"{W}-worker long-run")) for sig, msg in bad]
+        key = key + (W,)
         if "error" not in r:
             n += r["steps"]
             ctx.coverage["chain_states"] = ctx.coverage.get("chain_states", 0) + r["states"]
@@ -331,12 +345,12 @@ def run_part(ctx):
             ctx.note(f"chain {key}: states={r['states']} transitions={r['transitions']} irreducible={r['irreducible']} "
                      + " ".join(f"{k}: est={v['estimate']:.6f} exact={v['exact_M']:.6f} bound={v['bound']:.1e}" for k, v in info.items()))
             if len(ctx.samples) < 6:
-                ctx.sample(dict(chain=[key[0], list(key[1]), key[2], key[3], key[4]], states=r["states"], estimates=info))
+                ctx.sample(dict(chain=[key[0], list(key[1]), key[2], key[3], key[4]], workers=W, states=r["states"], estimates=info))
         for sig, msg in bad:
-            ctx.violation(sig, msg, dict(kind="chain", key=[key[0], list(key[1]), key[2], key[3], key[4]]))
-    for ch in _CHAIN.values():
+            ctx.violation(sig, msg, dict(kind="chain", key=[key[0], list(key[1]), key[2], key[3], key[4]], W=W))
+    for ch in list(_CHAIN.values()) + list(_CHAIN2.values()):
         ch.close()
-    ctx.assume("joint chain: one worker, B=3; move outcomes come from the exact kernels of part (a) (run_md is a pure function of the job); "
+    ctx.assume("joint chain: B=3, one worker and two workers with first-in-first-out completion (an outcome-independent schedule; states with in-flight jobs are entered through [current].locked + pick_lock); move outcomes come from the exact kernels of part (a) (run_md is a pure function of the job); "
                "the estimator is the frac/weight ratio the data file encodes; acceptance band = interval between the exact values for L<=M and L<=M-1, widened by its width")
     return n
 
@@ -344,6 +358,242 @@ def run_part(ctx):
 def replay(data):
     k = data["key"]
     key = (k[0], tuple(k[1]), k[2], k[3], k[4])
-    r = solve(key, min(16, os.cpu_count() or 1))
+    W = data.get("W", 1)
+    r = (solve if W == 1 else solve2)(key, min(16, os.cpu_count() or 1))
     bad, info = judge(key, r)
-    return bad
+    return [(sig + (":W2" if W == 2 else ""), msg) for sig, msg in bad]
+
+
+# ---------------------------------------------------------------------------
+# two workers, first-in-first-out completion (an outcome-independent schedule)
+# ---------------------------------------------------------------------------
+
+
+class Chain2(Chain):
+    """Joint chain with two workers.  State = (live paths by slot, ensembles of the older job, ensembles of the
+    newer job); the older job always completes first.  States with in-flight jobs are entered through the real
+    restart path: the jobs are listed in [current].locked and re-issued by pick_lock."""
+
+    def __init__(self, dynname, mv, M, cap=None, n_jumps=1):
+        super().__init__(dynname, mv, M, cap, n_jumps)
+        self.cfg["runner"]["workers"] = 2
+
+    def build_state2(self, s):
+        from infretis.classes.repex import REPEX_state
+
+        paths_, older, newer = s
+        cfg = copy.deepcopy(self.cfg)
+        cfg["current"]["locked"] = [[[e + 1 for e in job], [str(e + 1) for e in job]] for job in (older, newer)]
+        scenario.reset_globals()
+        l1.activate(True)
+        st = REPEX_state(cfg, minus=True)
+        st.traj_data = {}
+        st.initiate_ensembles()
+        paths = [lat.mk_path(sites, maxlen=self.M, generated=("sh", 0.0, 1, 1), number=k, tag=f"p{k}")
+                 for k, sites in enumerate(paths_)]
+        st.load_paths(paths)
+        st.engine_occ = {"engine": [-1, -1]}
+        st.pstore = l1.StubStore()
+        self.md_items = {"mc_moves": st.mc_moves, "interfaces": st.interfaces, "cap": st.cap}
+        mds = []
+        while st.initiate():
+            mds.append(st.prep_md_items(copy.deepcopy(self.md_items)))
+        assert len(mds) == 2 and tuple(mds[0]["ens_nums"]) == tuple(older) and tuple(mds[1]["ens_nums"]) == tuple(newer)
+        return st, mds
+
+    def initial_states(self):
+        """All outcomes of the two initial picks from the default initial paths."""
+        from infretis.classes.repex import REPEX_state
+
+        init = ((1, 0, 1), (0, 1, 0), (0, 1, 2, 1, 0))
+        old = os.getcwd()
+        os.chdir(self.wd)
+        out = set()
+        try:
+            def fn(ch):
+                sr.use(ch)
+                cfg = copy.deepcopy(self.cfg)
+                scenario.reset_globals()
+                l1.activate(True)
+                st = REPEX_state(cfg, minus=True)
+                st.traj_data = {}
+                st.initiate_ensembles()
+                st.load_paths([lat.mk_path(sites, maxlen=self.M, generated=("sh", 0.0, 1, 1), number=k) for k, sites in enumerate(init)])
+                st.engine_occ = {"engine": [-1, -1]}
+                st.pstore = l1.StubStore()
+                mi = {"mc_moves": st.mc_moves, "interfaces": st.interfaces, "cap": st.cap}
+                mds = []
+                while st.initiate():
+                    mds.append(st.prep_md_items(copy.deepcopy(mi)))
+                return (tuple(lat.sites(t) for t in st._trajs[:-1]), tuple(mds[0]["ens_nums"]), tuple(mds[1]["ens_nums"]))
+
+            for ch, s in explore(fn):
+                out.add(s)
+        finally:
+            os.chdir(old)
+            l1.deactivate()
+        return sorted(out)
+
+    def expand2(self, s):
+        old_cwd = os.getcwd()
+        os.chdir(self.wd)
+        try:
+            paths_, older, newer = s
+            olds = tuple(paths_[e + 1] for e in older)
+            if len(older) == 1:
+                K = self.kernel(older[0], olds[0])
+                outcomes = [(pk, (new,) if new != olds[0] else None) for new, pk in K.items() if pk > 0]
+            else:
+                K = self.swap_kernel(olds[0], olds[1])
+                outcomes = [(pk, new if new != (olds[0], olds[1]) else None) for new, pk in K.items() if pk > 0]
+            out = {}
+            terms = [[0.0, 0.0] for _ in range(self.B - 1)]
+            for pk, new in outcomes:
+                first = True
+
+                def fn(ch, new=new):
+                    sr.use(ch)
+                    st, mds = self.build_state2(s)
+                    md = mds[0]
+                    status = "ACC" if new is not None else "FTL"
+                    for k, e in enumerate(md["ens_nums"]):
+                        trial = md["picked"][e]["traj"]
+                        if new is not None:
+                            trial = lat.mk_path(new[k], maxlen=self.M, generated=("sh", 0.0, 1, 1), tag="n")
+                            trial.status = "ACC"
+                            trial.weights = tis.calc_cv_vector(trial, md["interfaces"], md["mc_moves"],
+                                                               md["picked"][e]["ens"]["tis_set"]["lambda_minus_one"],
+                                                               cap=md["cap"], minus=e < 0)
+                            md["picked"][e]["traj"] = trial
+                        md["moves"].append("x")
+                        md["trial_len"].append(trial.length)
+                        md["trial_op"].append((0.0, 0.0))
+                        md["generated"].append(trial.generated)
+                    md.update({"status": status, "wmd_start": 0.0, "wmd_end": 0.0})
+                    st.loop()
+                    st.treat_output(md)
+                    P = np.array(st.prob, dtype=float)
+                    Wm = np.array(st.state, dtype=float)
+                    locks = [int(x) for x in st._locks]
+                    post = tuple(lat.sites(t) for t in st._trajs[:-1])
+                    md2 = st.prep_md_items(md)
+                    succ = (tuple(lat.sites(t) for t in st._trajs[:-1]), tuple(newer), tuple(md2["ens_nums"]))
+                    return succ, P, Wm, locks, post
+
+                for ch, (succ, P, Wm, locks, post) in explore(fn):
+                    pp = ch.prob_float()
+                    out[succ] = out.get(succ, 0.0) + pk * pp
+                    if first:
+                        first = False
+                        for i in range(self.B - 1):
+                            for k, sites in enumerate(post):
+                                if locks[k]:
+                                    continue  # busy paths are not credited
+                                w = Wm[k][i + 1]
+                                if P[k][i + 1] > 0 and w > 0:
+                                    terms[i][1] += pk * P[k][i + 1] / w
+                                    if max(sites) >= i + 2:
+                                        terms[i][0] += pk * P[k][i + 1] / w
+            return out, [tuple(t) for t in terms], len(outcomes)
+        finally:
+            os.chdir(old_cwd)
+            l1.deactivate()
+
+
+_CHAIN2 = {}
+
+
+def _expand2_job(args):
+    key, s = args
+    ch = _CHAIN2.get(key)
+    if ch is None:
+        ch = _CHAIN2[key] = Chain2(*key)
+    try:
+        return s, ch.expand2(s)
+    except Exception as e:  # noqa: BLE001
+        import traceback
+
+        tb = traceback.extract_tb(e.__traceback__)
+        where = next((f"{os.path.basename(fr.filename)}:{fr.name}" for fr in reversed(tb) if "/infretis/" in fr.filename), "?")
+        return s, ("error", f"{type(e).__name__} in {where} while stepping from joint state {s}: {e}")
+
+
+def solve2(key, procs):
+    import multiprocessing as mp
+
+    ch0 = Chain2(*key)
+    try:
+        inits = ch0.initial_states()
+    finally:
+        ch0.close()
+    states = {}
+    order = []
+    for s in inits:
+        states[s] = len(order)
+        order.append(s)
+    rows, terms = {}, {}
+    frontier = list(order)
+    n_steps = 0
+    with mp.get_context("fork").Pool(procs) as pool:
+        while frontier:
+            res = pool.map(_expand2_job, [(key, s) for s in frontier], chunksize=2)
+            nxt = []
+            for s, r_ in res:
+                if r_[0] == "error":
+                    return dict(error=r_[1])
+                out, tr, nout = r_
+                rows[s] = out
+                terms[s] = tr
+                n_steps += len(out)
+                for t in out:
+                    if t not in states:
+                        states[t] = len(order)
+                        order.append(t)
+                        nxt.append(t)
+            frontier = nxt
+    n = len(order)
+    T = np.zeros((n, n))
+    for s, out in rows.items():
+        tot = sum(out.values())
+        if abs(tot - 1.0) > 1e-9:
+            return dict(error=f"outgoing probabilities of state {s} sum to {tot}")
+        for t, p in out.items():
+            T[states[s], states[t]] += p
+    A = T > 0
+
+    def reach(M_, start):
+        seen = {start}
+        stack = [start]
+        while stack:
+            i = stack.pop()
+            for j in np.nonzero(M_[i])[0]:
+                if j not in seen:
+                    seen.add(int(j))
+                    stack.append(int(j))
+        return seen
+
+    # the initial picks may include transient states: judge the recurrent class reached from state 0
+    fwd = reach(A, 0)
+    rec = sorted(i for i in fwd if 0 in reach(A, i)) if n < 400 else None
+    # stationary vector by power iteration (robust for a few thousand states)
+    pi = np.full(n, 1.0 / n)
+    for _ in range(20000):
+        nxt = pi @ T
+        if np.max(np.abs(nxt - pi)) < 1e-15:
+            pi = nxt
+            break
+        pi = nxt
+    pi = pi / pi.sum()
+    resid = float(np.max(np.abs(pi @ T - pi)))
+    support = int(np.sum(pi > 1e-14))
+    # irreducibility of the support
+    idx = np.nonzero(pi > 1e-14)[0]
+    sub = A[np.ix_(idx, idx)]
+    irreducible = len(reach(sub, 0)) == len(idx) and len(reach(sub.T, 0)) == len(idx)
+    est = []
+    for i in range(2):
+        num = sum(pi[states[s]] * terms[s][i][0] for s in order)
+        den = sum(pi[states[s]] * terms[s][i][1] for s in order)
+        est.append(num / den if den else float("nan"))
+    return dict(states=n, recurrent=support, transitions=int(A.sum()), steps=n_steps, irreducible=irreducible, pi_resid=resid,
+                estimate=est)
